@@ -95,6 +95,10 @@ class MonitorHook:
             con = eng.reg.contract(eng.cur_func_qual() or "")
             if con is not None:
                 env = dict(getattr(eng, "entry_env", None) or {"self": me})
+                # what THIS function must have published by the time it gives the lock back (other threads act on it next)
+                for nm, text in (getattr(con, "at_release", None) or {}).get(sp.lock_field, []):
+                    eng.oblige("%s/monitor[%s]:%s@%s" % (eng.cur_func, sp.name, nm, where),
+                               eng.truth(eng.eval_spec(text, env, me.cls.split(".")[0])), clause=text, kind="monitor")
                 rec = eng.state.ghost.get("mon_pre", {})
                 for nm, text in con.monitor_preserves:
                     if nm in rec:
